@@ -51,6 +51,7 @@ func (e *Engine) verifyFunction(fc *FuncContract, mode *Mode) *VC {
 
 func (e *Engine) genFunction(fc *FuncContract, mode *Mode, auto map[string]int) (vc *VC) {
 	vc = newVC(e, fc.Key)
+	vc.qf = fc.QF
 	fn := e.findFunction(fc.Key)
 	if fn == nil {
 		vc.unsupportedf("unbound-contract: no function %s", fc.Key)
@@ -154,7 +155,7 @@ func (e *Engine) genFunction(fc *FuncContract, mode *Mode, auto map[string]int) 
 			vc.oblige("post", name, c.Props, out.guard, g, pos, note)
 		}
 	}
-	if fc.HasMod && !fc.Pure {
+	if fc.HasMod && !fc.Pure && !fc.QF {
 		fr.frameObligations(fc, st, out, pos)
 	}
 	return vc
